@@ -90,13 +90,17 @@ def simplify_len(seq):
             return rw(counts[x[1][1]])
         if len(x) == 3 and x[0] == "cast" and isinstance(x[2], list) and len(x[2]) == 2 and x[2][0] == "v" and widths.get(x[2][1], 99) <= WIDTH_OF.get(x[1], 0):
             return x[2]
+        if len(x) == 4 and x[0] == "op" and x[1] == ">>" and isinstance(x[2], list) and len(x[2]) == 4 and x[2][0] == "op" and x[2][1] == "<<" and x[2][3] == x[3] and x[3][0] == "n" \
+                and isinstance(x[2][2], list) and x[2][2][0] == "v" and x[2][2][1] in widths and x[3][1] < widths[x[2][2][1]]:
+            # (v << k) >> k on a w-bit wire integer keeps its low w - k bits
+            return canon(["op", "&", x[2][2], ["n", (1 << (widths[x[2][2][1]] - x[3][1])) - 1]])
         if x and x[0] in ("op", "not", "fld", "cast") and isinstance(x[0], str):
             try:
                 return canon(x)
             except Exception:
                 return x
         return x
-    if not counts:
+    if not counts and not widths:
         return seq
     new = rw(seq)
     seq["steps"], seq["ret"] = new["steps"], new["ret"]
